@@ -95,7 +95,9 @@ fn main() {
          <class>|culprit=<OpKind>: prefixes of the history are re-executed on fresh editors (down and up all operation boundaries, twice); the shortest failing prefix gives the class; \
          culprit = its last operation for *_mismatch classes, the operation that pushed the failing step for *_err / *_panic; for redo_not_cleared the culprit is the new edit. \
          Non-trivial: the history changed the snapshot AND (two operations worked on the same layer index OR a layer add/remove/reorder/merge/paste/crop was followed by a cell edit). \
-         Distinct by case hash.",
+         Distinct by case hash. While one of the findings C08-stamp-layer-down, C08-insert-delete-row-column-undo, C08-alpha-lock-undo, C08-shrunk-layer-hidden-content, \
+         C08-change-font-slot is open, its precondition (stamp_layer_down; insert/delete row/column; alpha-locked layers; set_layer_size; change_font_slot) is generated in no part \
+         (coverage.steered_away lists what was removed); witness and replay files are never steered.",
     );
     eng.assume("the snapshot reads the document only through public accessors (get_char on every cell inside each layer's size, sizes, offsets, Properties, role, transparency, default font page, palette RGB, font table, SAUCE fields, buffer size and modes); caret, selection, current layer, preview offset and dirty flags are not part of the document state named by the statement; the font page of an invisible cell is not compared (the engine pads rows with font-page-0 invisibles whatever the layer's default page is)");
     eng.assume("SAUCE records handed to update_sauce_data carry the current buffer size (Buffer::set_size keeps sauce.buffer_size in step, so a record with a foreign size is outside the editor's own invariant)");
